@@ -1,0 +1,7 @@
+//go:build !verif
+
+package dastard
+
+// verifPoint marks a named point for the verification harnesses (build tag "verif").
+// In ordinary builds it does nothing.
+func verifPoint(name string, args ...interface{}) {}
